@@ -39,6 +39,7 @@ def handle (op : String) (ins outs : List String) : List Out :=
     let isSome := parseNat (outs.getD 0 "0")
     let k := parseNat (outs.getD 1 "0")
     let impl := ((outs.drop 2).take (8 * k)).map fl
+    if isSome == 2 then [mk "fit_curve.panic" false s!"the implementation panicked on {n} points with max_error {me}; the generated fitter returns {if model.isSome then "a chain" else "None"}"] else
     match model with
     | none => [mk "fit_curve.none_iff" (isSome == 0) s!"model None, implementation Some of {k} curves"]
     | some cs =>
